@@ -3,6 +3,8 @@ import Hls.Muxer.AcceptFrame
 # C01 helper lemmas, part 2: the muxer-wide operations (`rotateParts`, `rotateSegments`,
 `createFirstSegment`, `partWriteSample`) as `AbsStep`s — what they do to every track at once.
 -/
+set_option linter.unusedSimpArgs false
+set_option linter.unusedVariables false
 namespace Hls.Muxer.Accept
 open Hls.Muxer
 
